@@ -193,13 +193,14 @@ def parentOf (h : Heap) (x : Id) : Option Id :=
     | .lib => n.pGlyph.or (n.pLayer.or n.pFont)
     | _ => n.pGlyph
 
-/-- reading every accessor of `x` fills its caches -/
+/-- reading every accessor of `x` fills its caches: a font caches nothing, a leaf caches layer, layer set,
+font and dispatcher, the others the dispatcher only -/
 def fill (h : Heap) (x : Id) : Heap :=
   h.upd x fun n =>
-    match n.kind with
-    | .font => n
-    | .layerSet | .layer | .glyph => { n with disp := dispOf h x }
-    | _ => { n with pLayer := layerOf h x, pLayerSet := layerSetOf h x, pFont := fontOf h x, disp := dispOf h x }
+    if n.kind = .font then n
+    else if n.kind.isLeaf then
+      { n with pLayer := layerOf h x, pLayerSet := layerSetOf h x, pFont := fontOf h x, disp := dispOf h x }
+    else { n with disp := dispOf h x }
 
 /-- what `endSelfNotificationObservation` leaves of the references -/
 def Node.cleared (n : Node) : Node :=
@@ -406,19 +407,19 @@ def newFontCore (h : Heap) : Heap :=
   let h := observe h f f [.all]
   spawn h f { kind := .layerSet, pFont := some f }
 
-/-- the glyph object a layer builds: `Layer.instantiateGlyphObject` + `_insertGlyph` under `name` -/
+/-- the glyph object a layer builds and stores under `name`: `Layer.instantiateGlyphObject` (the constructor
+receives the layer and copies its layer set and font) + `_insertGlyph`, which first lets go of a different glyph
+object stored under that name.  (The code builds the new object before it lets go of the old one; the two
+steps do not touch the same objects, the model does them in the other order.) -/
 def addGlyph (h : Heap) (l : Id) (name : String) : Heap :=
-  let g := h.next
-  let h := h.alloc { kind := .glyph, pLayer := some l, pLayerSet := h.storedLayerSet l,
-                     pFont := (h.storedLayerSet l).bind h.storedFont }
-  let h := observe h g g [.all]
-  let h := h.setName g name
   let h := match h.findNamed l .glyph name with
     | some r => killGlyph h l r
     | none => h
-  let h := h.addKid l g
-  let h := h.dropUnloaded l name
-  observe h g l (namesFor h l g)
+  let g := h.next
+  let h := spawn h l { kind := .glyph, pLayer := some l, pLayerSet := h.storedLayerSet l,
+                       pFont := (h.storedLayerSet l).bind h.storedFont }
+  let h := h.setName g name
+  h.dropUnloaded l name
 
 def spawnMany (h : Heap) (g : Id) (k : Kind) : Nat → Heap
   | 0 => h
